@@ -30,6 +30,9 @@ pub(crate) mod __verif_k {
         // '٣' (ARABIC-INDIC DIGIT THREE) and '²' are numeric, not alphabetic: both count as alphanumeric for char::is_alphanumeric
         if (c as u32) < 128 { c.is_ascii_alphanumeric() } else { nonascii_alpha(c) || c == '٣' || c == '²' }
     }
+    pub fn is_numeric_stub(c: char) -> bool {
+        if (c as u32) < 128 { c.is_ascii_digit() } else if c == '٣' || c == '²' { true } else { let _ = nonascii_alpha(c); false }
+    }
     pub fn slice_fail_stub(_s: &str, _b: usize, _e: usize) -> ! {
         panic!("str slice at a non-boundary / out of range")
     }
@@ -194,6 +197,7 @@ pub(crate) mod __verif_k {
             #[kani::unwind($unwind)]
             #[kani::stub(char::is_alphabetic, is_alpha_stub)]
             #[kani::stub(char::is_alphanumeric, is_alnum_stub)]
+            #[kani::stub(char::is_numeric, is_numeric_stub)]
             #[kani::stub(core::str::slice_error_fail, slice_fail_stub)]
             fn $name() {
                 $( first_case($c, $k); )+
@@ -205,10 +209,8 @@ pub(crate) mod __verif_k {
     // operators that have a two-character form, and the slash (division vs. comment start is decided by the next byte;
     // the comment case recurses and is covered by c08_comment_*)
     first_char_harness!(c08_first_two_char_ops, 6, 2, ['=', '!', '<', '>', '&', '|']);
-    first_char_harness!(c08_first_punct_a, 6, 2, [';', ',', '.', '(', ')', '{', '}']);
-    first_char_harness!(c08_first_punct_b, 6, 2, ['[', ']', '-', '+', '*', '^', '%']);
-    first_char_harness!(c08_first_illegal_ascii, 6, 2, ['#', '$', '\'', ':', '?', '@', '\\', '`', '~', '\u{0}', '\u{7}', '\u{1b}', '\u{7f}']);
-    first_char_harness!(c08_first_illegal_nonascii, 6, 2, ['€', '🇳', '\u{00A0}', '٣', '²']);
+    first_char_harness!(c08_first_punct, 6, 2, [';', ',', '.', '(', ')', '{', '}', '[', ']', '-', '+', '*', '^', '%']);
+    first_char_harness!(c08_first_illegal, 6, 2, ['#', '$', '\'', ':', '?', '@', '\\', '`', '~', '\u{0}', '\u{7}', '\u{1b}', '\u{7f}', '€', '🇳', '\u{00A0}', '٣', '²']);
     // measured: one first character costs 30 s (2 symbolic bytes) / 60 s (3) / 105 s (4) => one character per harness
     first_char_harness!(c08_first_digit_0, 8, 3, ['0']);
     first_char_harness!(c08_first_digit_9, 8, 2, ['9']);
@@ -219,14 +221,15 @@ pub(crate) mod __verif_k {
     first_char_harness!(c08_first_letter_s, 8, 3, ['s']);
     first_char_harness!(c08_first_letter_n, 8, 3, ['n']);
     first_char_harness!(c08_first_letter_j, 8, 2, ['j']);
-    first_char_harness!(c08_first_letter_z, 8, 2, ['z']);
-    first_char_harness!(c08_first_letter_f, 8, 2, ['f']);
-    first_char_harness!(c08_first_letter_v, 8, 2, ['v']);
-    first_char_harness!(c08_first_letter_b, 8, 2, ['b']);
-    first_char_harness!(c08_first_letter_cap, 8, 2, ['Z']);
     first_char_harness!(c08_first_underscore, 8, 2, ['_']);
     first_char_harness!(c08_first_letter_eacute, 8, 2, ['é']);
-    first_char_harness!(c08_first_letter_pi, 8, 2, ['π']);
+    // thorough tier (names ending in _x / _k4)
+    first_char_harness!(c08_first_letter_z_x, 8, 2, ['z']);
+    first_char_harness!(c08_first_letter_f_x, 8, 2, ['f']);
+    first_char_harness!(c08_first_letter_v_x, 8, 2, ['v']);
+    first_char_harness!(c08_first_letter_b_x, 8, 2, ['b']);
+    first_char_harness!(c08_first_letter_cap_x, 8, 2, ['Z']);
+    first_char_harness!(c08_first_letter_pi_x, 8, 2, ['π']);
     first_char_harness!(c08_first_letter_x_k4, 8, 4, ['x']);
 
     /// text = [symbolic byte consumed] ++ prefix (concrete) ++ k symbolic ASCII bytes; the token starts at the prefix
@@ -250,6 +253,7 @@ pub(crate) mod __verif_k {
             #[kani::unwind($unwind)]
             #[kani::stub(char::is_alphabetic, is_alpha_stub)]
             #[kani::stub(char::is_alphanumeric, is_alnum_stub)]
+            #[kani::stub(char::is_numeric, is_numeric_stub)]
             #[kani::stub(core::str::slice_error_fail, slice_fail_stub)]
             fn $name() {
                 $( prefix_case($p, $k); )+
@@ -257,26 +261,34 @@ pub(crate) mod __verif_k {
         };
     }
 
-    // keywords are recognised only as whole words: the whole keyword, then anything; the keyword minus its last letter, then anything
-    prefix_harness!(c08_keyword_antwoord, 14, 2, ["antwoord", "antwoor"]);
-    prefix_harness!(c08_keyword_volgende, 14, 2, ["volgende", "volgend"]);
-    prefix_harness!(c08_keyword_functie, 14, 2, ["functie", "functi"]);
-    prefix_harness!(c08_keyword_zolang, 14, 2, ["zolang", "zolan"]);
-    prefix_harness!(c08_keyword_anders, 14, 2, ["anders", "ander"]);
+    // keywords are recognised only as whole words: the whole keyword, then anything (quick); the keyword minus its last
+    // letter, then anything (thorough)
+    prefix_harness!(c08_keyword_antwoord, 14, 2, ["antwoord"]);
+    prefix_harness!(c08_keyword_volgende, 14, 2, ["volgende"]);
+    prefix_harness!(c08_keyword_functie, 14, 2, ["functie"]);
+    prefix_harness!(c08_keyword_zolang, 14, 2, ["zolang"]);
+    prefix_harness!(c08_keyword_anders, 14, 2, ["anders"]);
     prefix_harness!(c08_keyword_als_stel, 10, 2, ["als", "stel"]);
     prefix_harness!(c08_keyword_stop_nee, 10, 2, ["stop", "nee"]);
-    prefix_harness!(c08_keyword_ja_case, 10, 2, ["ja", "Als", "jA"]);
+    prefix_harness!(c08_keyword_ja, 10, 2, ["ja"]);
+    prefix_harness!(c08_keyword_case_x, 10, 2, ["Als", "jA"]);
+    prefix_harness!(c08_keyword_cut_a_x, 14, 2, ["antwoor", "volgend"]);
+    prefix_harness!(c08_keyword_cut_b_x, 14, 2, ["functi", "zolan", "ander"]);
     // identifiers keep their exact spelling: digits, underscores and non-ASCII letters inside; stop at a non-letter
-    prefix_harness!(c08_ident_inner_a, 12, 2, ["a1", "a_", "aé"]);
-    prefix_harness!(c08_ident_inner_b, 12, 2, ["éa", "a€", "a\u{2028}"]);
-    prefix_harness!(c08_ident_inner_c, 12, 2, ["x٣", "a²"]);
+    prefix_harness!(c08_ident_inner_a, 12, 1, ["a1", "a_", "aé"]);
+    prefix_harness!(c08_ident_inner_b, 12, 1, ["éa", "a€", "a\u{2028}"]);
+    prefix_harness!(c08_ident_inner_c, 12, 1, ["x٣", "a²"]);
+    prefix_harness!(c08_ident_inner_k2_x, 12, 2, ["a1", "aé"]);
     // numbers: exact spelling; one decimal point at most
     prefix_harness!(c08_number_inner_a, 12, 2, ["1.", "1.5", "10"]);
     prefix_harness!(c08_number_inner_b, 12, 2, ["1.2.", "0é", "7\u{2028}"]);
+    // a number ends before a non-ASCII digit / superscript (they are not part of the number's spelling)
+    prefix_harness!(c08_number_inner_c, 12, 1, ["1²", "2.5²", "1٣", "3.٣"]);
     // string literals: escapes do not end the literal, an escaped backslash does not escape the quote, non-ASCII content
-    prefix_harness!(c08_string_inner_a, 12, 2, ["\"\\\"", "\"\\\\", "\"é"]);
+    prefix_harness!(c08_string_inner_a, 12, 2, ["\"\\\"", "\"\\\\"]);
     prefix_harness!(c08_string_inner_b, 12, 2, ["\"€\"", "\"a\\", "\"\\n"]);
     prefix_harness!(c08_string_inner_c, 12, 2, ["\"\\\\\\\\", "\"\\\\\\"]);
+    prefix_harness!(c08_string_inner_d, 12, 2, ["\"é"]);
 
     // white space (every form) and comments are skipped, then the SAME function runs on what follows (it recurses):
     // concrete skipped part, concrete first character of what follows, symbolic rest
@@ -293,7 +305,8 @@ pub(crate) mod __verif_k {
             let mut l = 0;
             while l < t { buf[base + l] = ascii(); l += 1; }
             let r = check_one(&buf, base + t, 1);
-            if f.len() > 0 { kani::cover!(r.is_some()); } else if t == 0 { kani::cover!(r.is_none()); }
+            // one reachability witness per case: a token when something follows, the end of the text when nothing does
+            kani::cover!(if f.len() > 0 { r.is_some() } else { t > 0 || r.is_none() });
             t += 1;
         }
     }
@@ -303,6 +316,7 @@ pub(crate) mod __verif_k {
             #[kani::unwind($unwind)]
             #[kani::stub(char::is_alphabetic, is_alpha_stub)]
             #[kani::stub(char::is_alphanumeric, is_alnum_stub)]
+            #[kani::stub(char::is_numeric, is_numeric_stub)]
             #[kani::stub(core::str::slice_error_fail, slice_fail_stub)]
             fn $name() {
                 $( skip_harness!(@one $s, $k, $f); )+
@@ -312,14 +326,20 @@ pub(crate) mod __verif_k {
             $( skip_case($s, $f, $k); )+
         };
     }
-    skip_harness!(c08_ws_ascii_a, 8, 1, [" ", "\t", "\n"], ["", "a", "1", "="]);
-    skip_harness!(c08_ws_ascii_b, 8, 1, ["\r", "\u{b}", "\u{c}"], ["", "a", "1", "="]);
-    skip_harness!(c08_ws_unicode_a, 8, 1, ["\u{0085}", "\u{200E}", "\u{200F}"], ["", "a", "1", ";"]);
-    skip_harness!(c08_ws_unicode_b, 8, 1, ["\u{2028}", "\u{2029}", " \t\r\n "], ["", "\"", "/", "é"]);
-    skip_harness!(c08_comment_to_eol_a, 10, 1, ["//\n", "// x\n"], ["", "a", "1", "/", ";"]);
-    skip_harness!(c08_comment_to_eol_b, 10, 1, ["//é€\n", "///\n", "//\n//\n"], ["", "a", "\""]);
-    // a comment that runs to the end of the text, whatever it contains (quotes, keywords, slashes, non-ASCII)
-    skip_harness!(c08_comment_to_eof, 10, 0, ["//", "// x", "//\"", "// stel", "///", "//é"], [""]);
+    // (measured: one case with a symbolic byte = 15-40 s depending on the follower; cases without symbolic bytes ~2 s)
+    skip_harness!(c08_ws_each_a, 8, 1, [" ", "\t", "\n", "\r"], ["a"]);
+    skip_harness!(c08_ws_each_b, 8, 1, ["\u{b}", "\u{c}", "\u{0085}", "\u{200E}"], ["a"]);
+    skip_harness!(c08_ws_each_c, 8, 1, ["\u{200F}", "\u{2028}", "\u{2029}", " \t\r\n "], ["a"]);
+    skip_harness!(c08_ws_to_eof, 8, 0, [" ", "\t", "\n", "\r", "\u{b}", "\u{c}", "\u{0085}", "\u{200E}", "\u{200F}", "\u{2028}", "\u{2029}", " \t\r\n "], [""]);
+    skip_harness!(c08_ws_then_two_char, 8, 1, [" "], ["=", "\""]);
+    skip_harness!(c08_ws_then_each, 8, 0, [" ", "\u{2028}"], ["1", ";", "é", "_", "<=", "//", "/1", "/ /", "\"s\"", "1.5"]);
+    skip_harness!(c08_comment_to_eol_a, 10, 1, ["//\n", "// x\n", "//é€\n"], ["a"]);
+    skip_harness!(c08_comment_to_eol_b, 10, 1, ["///\n", "//\n//\n", "// x\r\n"], ["a"]);
+    // a comment ends at the newline whatever precedes it (a backslash is not an escape in a comment, a quote opens nothing)
+    skip_harness!(c08_comment_to_eol_c, 10, 1, ["//\\\n", "// a\\\\\n", "//\"\n"], ["a"]);
+    skip_harness!(c08_comment_then_each, 12, 0, ["//\n", "//\\\n", "// \"\n"], ["", "1", ";", "=", "\"s\"", "/", "é", "//"]);
+    // a comment that runs to the end of the text, whatever it contains (quotes, keywords, slashes, non-ASCII, a backslash)
+    skip_harness!(c08_comment_to_eof, 12, 0, ["//", "// x", "//\"", "// stel", "///", "//é", "// \\"], [""]);
 
     // ------------------------------------------------------------------ whole streams: every token, nothing dropped, nothing invented
     /// all tokens of buf[..n]; returns the number of tokens
@@ -367,6 +387,7 @@ pub(crate) mod __verif_k {
             #[kani::unwind($unwind)]
             #[kani::stub(char::is_alphabetic, is_alpha_stub)]
             #[kani::stub(char::is_alphanumeric, is_alnum_stub)]
+            #[kani::stub(char::is_numeric, is_numeric_stub)]
             #[kani::stub(core::str::slice_error_fail, slice_fail_stub)]
             fn $name() {
                 $( stream_case($t); )+
